@@ -10,6 +10,7 @@ import (
 	"math"
 	"math/rand"
 	"net"
+	"os"
 	"strings"
 
 	"github.com/btcsuite/btcd/btcec/v2"
@@ -19,6 +20,7 @@ import (
 	"github.com/lightninglabs/pool/account"
 	"github.com/lightninglabs/pool/auctioneer"
 	"github.com/lightninglabs/pool/auctioneerrpc"
+	"github.com/lightninglabs/pool/clientdb"
 	"github.com/lightninglabs/pool/internal/test"
 	"github.com/lightninglabs/pool/order"
 	"github.com/lightninglabs/pool/poolrpc"
@@ -27,6 +29,8 @@ import (
 	"github.com/lightningnetwork/lnd/keychain"
 	"github.com/lightningnetwork/lnd/lnwallet/chainfee"
 	"google.golang.org/grpc"
+	"google.golang.org/grpc/codes"
+	"google.golang.org/grpc/status"
 	"google.golang.org/grpc/credentials/insecure"
 	"google.golang.org/grpc/test/bufconn"
 )
@@ -320,12 +324,25 @@ func c12RandOrder(rng *rand.Rand, keys *c14Keys, valid bool) c12Order {
 type c12Auctioneer struct {
 	auctioneerrpc.UnimplementedChannelAuctioneerServer
 	got *auctioneerrpc.ServerSubmitOrderRequest
+
+	// mode: 0 accept, 1 answer "invalid order", 2 fail the RPC
+	mode int
 }
 
 func (a *c12Auctioneer) SubmitOrder(_ context.Context,
 	req *auctioneerrpc.ServerSubmitOrderRequest) (*auctioneerrpc.ServerSubmitOrderResponse, error) {
 
 	a.got = req
+	switch a.mode {
+	case 1:
+		return &auctioneerrpc.ServerSubmitOrderResponse{
+			Details: &auctioneerrpc.ServerSubmitOrderResponse_InvalidOrder{
+				InvalidOrder: &auctioneerrpc.InvalidOrder{FailString: "verif: rejected"},
+			},
+		}, nil
+	case 2:
+		return nil, status.Error(codes.Unavailable, "verif: auctioneer unavailable")
+	}
 	return &auctioneerrpc.ServerSubmitOrderResponse{
 		Details: &auctioneerrpc.ServerSubmitOrderResponse_Accepted{},
 	}, nil
@@ -393,21 +410,64 @@ func c12WireString(req *auctioneerrpc.ServerSubmitOrderRequest) string {
 	return "?"
 }
 
-// c12Store is the order.Store of the manager: no previous orders, records
-// what PrepareOrder stores.
-type c12Store struct {
-	order.Store
-	stored []order.Order
+// c12Preparer is the part of the (unexported) order manager the RPC server uses.
+type c12Preparer interface {
+	PrepareOrder(context.Context, order.Order, *account.Account,
+		*terms.AuctioneerTerms) (*order.ServerOrderParams, error)
 }
 
-func (s *c12Store) GetOrders() ([]order.Order, error) { return nil, nil }
-func (s *c12Store) SubmitOrder(o order.Order) error   { s.stored = append(s.stored, o); return nil }
+// c12Session is one trader daemon's order manager on top of the REAL client
+// database (bbolt file in a scratch directory), shared by a group of
+// submissions so that histories (failed submissions, retries under the same
+// nonce) are possible.
+type c12Session struct {
+	db  *clientdb.DB
+	mgr c12Preparer
+	dir string
+	n   int
+}
+
+func (ss *c12Session) close() {
+	if ss == nil {
+		return
+	}
+	_ = ss.db.Close()
+	_ = os.RemoveAll(ss.dir)
+}
 
 type c12Env struct {
 	*c14Env
 	srv    *c12Auctioneer
 	client *auctioneer.Client
 	stop   func()
+	sess   *c12Session
+}
+
+// session returns the current manager/database; a new one (and a `reset` line
+// for the model) is started every 40 orders to keep GetOrders cheap.
+func (e *c12Env) session(r *Run, fresh bool) *c12Session {
+	if e.sess != nil && !fresh && e.sess.n < 40 {
+		return e.sess
+	}
+	e.sess.close()
+	base := ""
+	if st, err := os.Stat("/dev/shm"); err == nil && st.IsDir() {
+		base = "/dev/shm"
+	}
+	dir, err := os.MkdirTemp(base, "verif-c12-")
+	if err != nil {
+		panic(err)
+	}
+	db, err := clientdb.New(dir, clientdb.DBFilename)
+	if err != nil {
+		panic(err)
+	}
+	e.sess = &c12Session{db: db, dir: dir, mgr: order.NewManager(&order.ManagerConfig{
+		Store: db, Lightning: test.NewMockLightning(), Wallet: test.NewMockWalletKit(),
+		Signer: e.signer,
+	})}
+	r.Emit("C12 reset", "ok")
+	return e.sess
 }
 
 func newC12Env(seed int64) *c12Env {
@@ -429,7 +489,7 @@ func newC12Env(seed int64) *c12Env {
 	e.client = auctioneer.VerifC12NewClient(&auctioneer.Config{
 		GenUserAgent: func(context.Context) string { return "verif" },
 	}, auctioneerrpc.NewChannelAuctioneerClient(conn))
-	e.stop = func() { conn.Close(); gs.Stop() }
+	e.stop = func() { conn.Close(); gs.Stop(); e.sess.close(); e.sess = nil }
 	return e
 }
 
@@ -501,10 +561,20 @@ func (e *c12Env) termCase(r *Run, c c12Order, rng *rand.Rand) {
 	}
 }
 
-// submitCase: a valid order through the real PrepareOrder and the real
-// SubmitOrder to the in-process auctioneer.
-func (e *c12Env) submitCase(r *Run, c c12Order, rng *rand.Rand, replay interface{}) {
+// submitCase: one run of what rpcServer.SubmitOrder does with a parsed order:
+// the real PrepareOrder on the session's manager and database, on success the
+// real Client.SubmitOrder to the in-process auctioneer (which may accept,
+// reject or fail: `mode`), on any failure the order is marked failed in the
+// database. Returns whether a request was transmitted.
+func (e *c12Env) submitCase(r *Run, c c12Order, rng *rand.Rand, replay interface{}, mode int) bool {
+	ss := e.session(r, false)
+	ss.n++
 	k := e.keys.ids[string(c12Unhex(c.AcctKey))]
+	if k == 0 {
+		// recorded case without a key of this run's table: use account 1
+		k = 1
+		c.AcctKey = hex.EncodeToString(e.keys.pub[1].SerializeCompressed())
+	}
 	acct := &account.Account{
 		Value: math.MaxInt64 / 4,
 		TraderKey: &keychain.KeyDescriptor{
@@ -523,27 +593,43 @@ func (e *c12Env) submitCase(r *Run, c c12Order, rng *rand.Rand, replay interface
 		ticket.State = sidecar.StateRegistered
 	}
 	o := c.real(ticket)
-	store := &c12Store{}
-	mgr := order.NewManager(&order.ManagerConfig{
-		Store: store, Lightning: test.NewMockLightning(), Wallet: test.NewMockWalletKit(), Signer: e.signer,
-	})
 	tm := &terms.AuctioneerTerms{
 		LeaseDurationBuckets: map[uint32]auctioneerrpc.DurationBucketState{
 			c.Lease: auctioneerrpc.DurationBucketState_MARKET_OPEN},
 		OrderExecBaseFee: 1, OrderExecFeeRate: 100,
 	}
+	markFailed := func() {
+		// rpcServer.SubmitOrder: "The server rejected the order. We keep it
+		// around for now"
+		_ = ss.db.UpdateOrder(o.Nonce(), order.StateModifier(order.StateFailed))
+	}
 	e.signer.lastMsg = nil
+	e.srv.got, e.srv.mode = nil, mode
 	var params *order.ServerOrderParams
+	var perr error
 	res := c14Guard(func() error {
-		var err error
-		params, err = mgr.PrepareOrder(e.ctx, o, acct, tm)
-		return err
+		params, perr = ss.mgr.PrepareOrder(e.ctx, o, acct, tm)
+		return perr
 	})
 	if res != "ok" {
-		r.Count("submit/prepare-rejected")
-		r.Notes = append(r.Notes, "PrepareOrder rejected a generated order: "+res)
-		return
+		out := res
+		if perr != nil && strings.Contains(perr.Error(), clientdb.ErrOrderExists.Error()) {
+			out = "err:exists"
+		}
+		r.Emit(fmt.Sprintf("C12 prepare %s %d", c.tok(), k), out)
+		r.Count("prepare/" + strings.SplitN(out, ":", 3)[0] + ":" + strings.SplitN(out+"::", ":", 3)[1])
+		markFailed()
+		if out != "err:exists" {
+			r.Count("submit/prepare-rejected")
+			r.Notes = append(r.Notes, "PrepareOrder rejected a generated order: "+res)
+		}
+		if e.srv.got != nil {
+			r.Violate("a request reached the auctioneer although PrepareOrder refused the order",
+				"C12/refused-but-sent", replay)
+		}
+		return false
 	}
+	r.Count("prepare/ok")
 	signedMsg := append([]byte(nil), e.signer.lastMsg...)
 	signerKey := int(e.signer.lastLoc.Index)
 	if e.signer.lastLoc.Family != acct.TraderKey.KeyLocator.Family {
@@ -551,12 +637,15 @@ func (e *c12Env) submitCase(r *Run, c c12Order, rng *rand.Rand, replay interface
 	}
 	r.Emit(fmt.Sprintf("C12 prepare %s %d", c.tok(), k),
 		fmt.Sprintf("ok:%d.%s", signerKey, c14Hex(signedMsg)))
-	e.srv.got = nil
 	sres := c14Guard(func() error { return e.client.SubmitOrder(e.ctx, o, params) })
-	if sres != "ok" || e.srv.got == nil {
+	r.Count(fmt.Sprintf("submit/mode%d/%s", mode, strings.SplitN(sres, ":", 3)[0]))
+	if sres != "ok" {
+		markFailed()
+	}
+	if e.srv.got == nil || (mode == 0 && sres != "ok") {
 		r.Count("submit/" + sres)
 		r.Violate("SubmitOrder failed for an order PrepareOrder accepted: "+sres, "C12/submit-failed", replay)
-		return
+		return false
 	}
 	got := e.srv.got
 	rb, det, rerr := c12Rebuild(got)
@@ -605,14 +694,91 @@ func (e *c12Env) submitCase(r *Run, c c12Order, rng *rand.Rand, replay interface
 	if e.signer.lastLoc != acct.TraderKey.KeyLocator {
 		why = append(why, "order digest was signed with another key locator than the account's")
 	}
-	if len(store.stored) != 1 {
-		why = append(why, "order not stored exactly once")
+	if _, gerr := ss.db.GetOrder(o.Nonce()); gerr != nil {
+		why = append(why, "order not on record in the client database")
 	}
 	if len(why) > 0 {
 		r.Count("oracle/violation")
 		r.Violate("order sent to the auctioneer is not the one signed: "+strings.Join(why, "; "),
 			fmt.Sprintf("C12/sent-not-signed/%s/v%d", side, c.Version), replay)
 	}
+	return true
+}
+
+// c12ValidChange changes one SIGNED term of a valid order such that the order
+// stays valid for PrepareOrder.
+func c12ValidChange(c c12Order, rng *rand.Rand) (c12Order, string) {
+	for {
+		switch rng.Intn(6) {
+		case 0:
+			c.Rate = c.Rate%100000 + 1 + uint32(rng.Intn(5000))
+			return c, "rate"
+		case 1:
+			c.Fee += 1 + int64(rng.Intn(5000))
+			return c, "fee"
+		case 2:
+			c.Lease = []uint32{2016, 4032, 1008, 144, 52560}[rng.Intn(5)] + 1
+			return c, "lease"
+		case 3:
+			if c.Version >= 1 && c.Units > 1 && c.SelfChanBal == 0 && !c.Sidecar && c.AuctionType == 0 {
+				c.MinUnits = 1 + (c.MinUnits % c.Units)
+				return c, "minunits"
+			}
+		case 4:
+			if c.Bid && c.Version >= 1 {
+				c.MinNodeTier = (c.MinNodeTier + 1) % 3
+				return c, "tier"
+			}
+		case 5:
+			if c.Version >= 5 {
+				c.ChannelType = (c.ChannelType + 1) % 3
+				return c, "chantype"
+			}
+		}
+	}
+}
+
+type c12Step struct {
+	Order c12Order `json:"order"`
+	Mode  int      `json:"mode"`
+	What  string   `json:"what"`
+}
+
+// historyCase: several submissions on ONE manager and database under the same
+// explicit nonce: a first submission that the auctioneer accepts, rejects or
+// that fails in transit, then retries with identical and with changed terms.
+// Per step: whatever is transmitted re-derives to the digest that was signed
+// in that step (oracle inside submitCase); a refused step transmits nothing.
+func (e *c12Env) historyCase(r *Run, steps []c12Step, seed int64) {
+	rng := rand.New(rand.NewSource(seed))
+	for i, st := range steps {
+		replay := map[string]interface{}{"op": "history", "seed": seed, "steps": steps[:i+1]}
+		nv := len(r.Violations)
+		sent := e.submitCase(r, st.Order, rng, replay, st.Mode)
+		r.Count(fmt.Sprintf("history/%s/sent=%v", st.What, sent))
+		if len(r.Violations) > nv {
+			return
+		}
+	}
+	r.Evaluations++
+}
+
+func (e *c12Env) randHistory(rng *rand.Rand) []c12Step {
+	c := c12RandOrder(rng, e.keys, true)
+	steps := []c12Step{{Order: c, Mode: rng.Intn(3), What: "first"}}
+	n := 1 + rng.Intn(3)
+	for i := 0; i < n; i++ {
+		if rng.Intn(3) == 0 {
+			steps = append(steps, c12Step{Order: c, Mode: rng.Intn(3), What: "retry-same"})
+			continue
+		}
+		c2, what := c12ValidChange(c, rng)
+		steps = append(steps, c12Step{Order: c2, Mode: rng.Intn(3), What: "retry-" + what})
+		if rng.Intn(2) == 0 {
+			c = c2
+		}
+	}
+	return steps
 }
 
 // submitRaw: SubmitOrder alone on arbitrary orders (error clauses of the
@@ -835,8 +1001,9 @@ func runC12(r *Run) {
 	for _, raw := range r.FixedCases() {
 		var f struct {
 			Op    string   `json:"op"`
-			Order c12Order `json:"order"`
-			Seed  int64    `json:"seed"`
+			Order c12Order  `json:"order"`
+			Seed  int64     `json:"seed"`
+			Steps []c12Step `json:"steps"`
 		}
 		if json.Unmarshal(raw, &f) != nil {
 			continue
@@ -848,10 +1015,15 @@ func runC12(r *Run) {
 			e.termCase(r, f.Order, rng)
 		case "submitraw":
 			e.submitRaw(r, f.Order, rng)
+		case "history":
+			e2 := newC12Env(f.Seed)
+			e2.session(r, true)
+			e2.historyCase(r, f.Steps, f.Seed)
+			e2.stop()
 		case "submit":
 			// keys of a replayed submit case come from the recorded seed
 			e2 := newC12Env(f.Seed)
-			e2.submitCase(r, f.Order, rng, raw)
+			e2.submitCase(r, f.Order, rng, raw, 0)
 			e2.stop()
 		}
 	}
@@ -866,9 +1038,12 @@ func runC12(r *Run) {
 				c.Sidecar = true
 				c.MinUnits = c.Units
 			}
-			e.submitCase(r, c, r.Rng, map[string]interface{}{"op": "submit", "order": c, "seed": r.Seed})
+			e.submitCase(r, c, r.Rng, map[string]interface{}{"op": "submit", "order": c, "seed": r.Seed}, 0)
 		}
 		e.submitRaw(r, c12RandOrder(r.Rng, e.keys, false), r.Rng)
 		e.parseCase(r, r.Rng)
+		if i%2 == 0 {
+			e.historyCase(r, e.randHistory(r.Rng), r.Seed)
+		}
 	}
 }
